@@ -3607,7 +3607,10 @@ func (vm *Thread) opSelect() value.Value {
 		}
 	}
 
-	chosenCaseIndex, val, channelOpen := reflect.Select(reflectSelectCases)
+	chosenCaseIndex, val, channelOpen, selectErr := selectRecover(reflectSelectCases)
+	if selectErr.IsNotUndefined() {
+		return selectErr
+	}
 	if chosenCaseIndex == 0 {
 		return value.ExecutionAbortedError.ToValue()
 	}
@@ -3661,6 +3664,23 @@ func (vm *Thread) opSelect() value.Value {
 	}
 
 	return value.Undefined
+}
+
+// Performs a select, a send case on a closed channel makes Go panic,
+// it gets translated to the error that `<<` throws for a closed channel.
+func selectRecover(cases []reflect.SelectCase) (chosen int, recv reflect.Value, recvOK bool, err value.Value) {
+	defer func() {
+		if r := recover(); r != nil {
+			if e, ok := r.(error); ok && e.Error() == "send on closed channel" {
+				err = value.ChannelClosedPushError.ToValue()
+				return
+			}
+			panic(r)
+		}
+	}()
+
+	chosen, recv, recvOK = reflect.Select(cases)
+	return chosen, recv, recvOK, value.Undefined
 }
 
 func (vm *Thread) opExecDefer() value.Value {
